@@ -110,7 +110,7 @@ CHECKS = {
         "level": "exploration",
         "manifest": {
             "technique": "property-based testing (rapid) over credential configuration x auth type x header shapes x client histories on a virtual clock, with a three-valued oracle (must reject / must accept / unspecified), through the real middleware chain in both execution modes",
-            "level_text": "Each case sets GLYPH_JWT_SECRET / GLYPH_API_KEYS (unset, empty, blank, padded, one, several), declares protected and unprotected routes (jwt, apikey in several casings, other identifiers), starts the module compiled or interpreted and sends a history of requests: canonical credentials, raw / lower-case / double-space / glued / other-scheme / bit-flipped / upper-cased secrets, duplicate header lines, X-API-Key variants, forged X-Forwarded-For / X-Real-IP, repeated failures and pauses on the virtual clock. Closed rule: a body runs (or its data is returned) only if a configured credential of that auth family occurs verbatim in some header value; nothing runs when nothing is configured. Open rule: the canonical forms are accepted unless that client (by RemoteAddr host) has >=5 recorded failures in the last 16 virtual minutes; forged forwarding headers never move failures onto another client. Unprotected routes always answer 200.",
+            "level_text": "Each case sets GLYPH_JWT_SECRET / GLYPH_API_KEYS (unset, empty, blank, padded, one, several), declares protected and unprotected routes (jwt, apikey in several casings, other identifiers), starts the module compiled or interpreted and sends a history of requests: canonical credentials, raw / lower-case / double-space / glued / other-scheme / bit-flipped / upper-cased secrets, duplicate header lines, X-API-Key variants, forged X-Forwarded-For / X-Real-IP, repeated failures and pauses on the virtual clock. Closed rule: a body runs (or its data is returned) only if a configured credential of that auth family occurs verbatim in some header value; nothing runs when nothing is configured. Open rule: the canonical forms are accepted unless that client (by RemoteAddr host) has >=5 recorded failures in the last 16 virtual minutes; forged forwarding headers never move failures onto another client. Unprotected routes always answer 200. A library-level unit drives pkg/apikey (Validator + Middleware, one of the anchors, not wired into the CLI) through configurations (static keys incl. blank ones, lookup function, header name incl. Authorization/Bearer, query parameter) and histories of AddKey / RemoveKey / requests with the same closed and open rules, plus: the identity the handler sees comes from the validated key, never from client-sent X-APIKey-* headers.",
             "level_note": "Whether a non-canonical spelling of a right credential (raw token, extra spaces) is accepted is unspecified and only the closed rule applies to it. Lockout durations are implementation-defined, so the oracle only bounds them (16 min). time.Now() in pkg/server/middleware.go is redirected by a generated overlay. pkg/apikey is not wired into the CLI and is not exercised here.",
         },
         "rule": ("rapid-generated (configuration, 1-4 routes, request history of 1-25 requests incl. scripted lockout and forged-forwarding scenarios); "
@@ -119,6 +119,7 @@ CHECKS = {
                         "body execution is observed through the response marker {ran: i, secret: data-i}"],
         "units": [
             {"name": "c06-auth", "bin": "cmdglyph", "build": "inpkg:cmd/glyph", "run": "^TestC06Auth$", "quick": 20000, "thorough": 1000000},
+            {"name": "c06-lib", "bin": "c06", "build": "harness:c06", "run": "^TestC06Lib$", "quick": 40000, "thorough": 2000000},
         ],
     },
     "C07": {
